@@ -86,8 +86,8 @@ def build_framework(spec):
     pars = []
     for p in spec["pars"]:
         page = "pp" if (p.get("val") is not None or p.get("page")) else None
-        pars.append((p["name"], "P " + p["name"], p.get("fmt"), p.get("fn"), page, p.get("ts"), yn(p.get("timed")), yn(p.get("targ")), p.get("min"), p.get("max"), yn(p.get("deriv")), p.get("ptype")))
-    F.sheets["parameters"] = [_df(pars, ["code name", "display name", "format", "function", "databook page", "timescale", "timed", "targetable", "minimum value", "maximum value", "is derivative", "population type"])]
+        pars.append((p["name"], "P " + p["name"], p.get("fmt"), p.get("fn"), page, p.get("ts"), yn(p.get("timed")), yn(p.get("targ")), p.get("min"), p.get("max"), yn(p.get("deriv")), p.get("ptype"), p.get("default")))
+    F.sheets["parameters"] = [_df(pars, ["code name", "display name", "format", "function", "databook page", "timescale", "timed", "targetable", "minimum value", "maximum value", "is derivative", "population type", "default value"])]
     mats = []
     for t in ptypes or [None]:
         names = [c["name"] for c in spec["comps"] if (not ptypes) or (c.get("ptype") or ptypes[0]) == t]
